@@ -76,6 +76,27 @@ def bidir_cases(rng, tier):
     return cases[:nb]
 
 
+def bidir_history(rng, ncalls):
+    """one bidirectional_signed_dijkstra call per line, all made by ONE thread of ONE process (state surviving between calls); see gen.history_plan"""
+    fresh, private = gen.history_plan(ncalls)
+    out = []
+    def line(g, s, sg):
+        return "B D 0 %d 1 %d 0 - %d %s 0  %s" % (s, s, len(sg), " ".join(map(str, sg)), gen.graph_tokens(g))
+    for i in range(1, ncalls + 1):
+        if i in fresh:
+            n = fresh[i]; g = (n, [(j, (j + 1) % n, 1) for j in range(n)]); out.append(line(g, 0, [0]))
+        elif i in private:
+            n = private[i]; g = (n, [(0, n - 3, 1), (n - 3, n - 2, 1), (n - 2, n - 1, 1), (n - 1, 0, 1)]); out.append(line(g, 0, [1]))
+        else:
+            g, _ = gen_graph(rng, 6)
+            n, es = g
+            if n < 2 or not es: g = (3, [(0, 1, 1), (1, 2, 2), (2, 0, 1)]); n, es = g
+            m = len(es)
+            sg = sorted(rng.sample(range(m), min(rng.choice([1, 1, 2, 3]), m)))
+            out.append(line(g, rng.randrange(n), sg))
+    return out
+
+
 def model_case_of(case, impl):
     """model input for an `A signed` case: graph + recovered roots + recovered pointer ranks"""
     t = case.split()
@@ -208,6 +229,22 @@ def run(c, tier, what):
                         {"component": "c01", "case": b, "impl": x, "model": y,
                          "theorem_or_correspondence": "correspondence c01/bidir: SignedModel.bidirectional_signed_dijkstra vs harness/c01.cpp"}, False)
     c.extra["bidir_calls"] = len(bcases)
+    # ---- a long history of search calls by ONE thread (state surviving between calls) --------------------
+    import random
+    nh = 70000 if tier == "quick" else 140000
+    hist = bidir_history(random.Random(c.seed * 7919 + 1), nh)
+    hio = lib.run_lines([exe], hist, par=1)
+    hmo = lib.run_model("bidir", [" ".join(b.split()[2:]) for b in hist], group="sva")
+    c.extra["long_history_calls"] = nh
+    nb = 0
+    for j, (b, x, y) in enumerate(zip(hist, hio, hmo)):
+        c.count(b, x.startswith("F "), bucket="bidir history")
+        if x != y and nb < 2:
+            nb += 1
+            c.violation("correspondence bidirectional_signed_dijkstra vs extracted SignedModel.bidir_Z no longer checks at call %d of a single-thread history of calls "
+                        "(found/weight/edge set differ)" % (j + 1),
+                        {"component": "c01", "case": b, "impl": x, "model": y, "history": {"seed": c.seed, "ncalls": nh, "index": j},
+                         "theorem_or_correspondence": "correspondence c01/bidir: SignedModel.bidirectional_signed_dijkstra vs harness/c01.cpp (call history)"}, False)
     c.extra["signed_exact_runs"] = len(sidx)
 
 
@@ -220,7 +257,14 @@ def replay_case(pid, path, what):
     lib.ensure_model("sva")
     exe, err = lib.build_cpp(name="c01", srcs=["c01.cpp"], libs=LIBS)
     line = r["case"]
-    o = lib.run_lines([exe], [line], par=1)[0]
+    if "history" in r:       # the failure needs the calls made before it by the same thread: regenerate the stream and run its prefix
+        import random
+        h = r["history"]
+        hist = bidir_history(random.Random(h["seed"] * 7919 + 1), h["ncalls"])[:h["index"] + 1]
+        assert hist[-1] == line, "history stream not reproducible"
+        o = lib.run_lines([exe], hist, par=1)[-1]
+    else:
+        o = lib.run_lines([exe], [line], par=1)[0]
     print("case:", line); print("impl:", o)
     bad = None
     if line.startswith("B "):
